@@ -1,15 +1,17 @@
 #!/bin/bash
 # usage: tools/seedtest.sh <seed-id> <tier> <check> [<check> ...]
-# Applies /verif/seeded/<seed-id>/patch.diff to /repo, runs the given checks, reverts /repo. Prints one line per check.
+# Runs the given checks against a scratch worktree of /repo with /verif/seeded/<seed-id>/patch.diff applied
+# (VERIF_REPO points the checks at it; evidence/replay files go to a scratch directory). /repo is not touched.
 id=$1; tier=$2; shift 2
-cd /repo || exit 2
-if ! git diff --quiet; then echo "/repo has uncommitted changes"; exit 2; fi
-git apply /verif/seeded/$id/patch.diff || { echo "patch does not apply"; exit 2; }
+wt=/tmp/seedtest_$id; sc=/tmp/seedtest_${id}_out
+git -C /repo worktree add -q --detach $wt HEAD || exit 2
+( cd $wt && git apply /verif/seeded/$id/patch.diff ) || { echo "patch does not apply"; git -C /repo worktree remove --force $wt; exit 2; }
+mkdir -p $sc
 cd /verif
 for c in "$@"; do
-  out=$(./check $c --tier $tier 2>&1); rc=$?
+  out=$(VERIF_REPO=$wt VERIF_SCRATCH=$sc ./check $c --tier $tier 2>&1); rc=$?
   echo "seed=$id check=$c tier=$tier exit=$rc $(echo "$out" | grep -c '^VIOLATION') violation lines; $(echo "$out" | grep '^\[' | tail -1)"
   echo "$out" | grep -A1 '^VIOLATION' | head -4 | cut -c1-300
+  echo "$out" | grep '^HARNESS' | head -2 | cut -c1-300
 done
-git -C /repo checkout -- .
-git -C /repo status --short | head -3
+git -C /repo worktree remove --force $wt; rm -rf $sc
